@@ -93,7 +93,7 @@ class C13(Scenario):
             if early:
                 add(n, ["pairs", None, sample_pairs(n, rng.randint(4, 16)), False])
             add(n, ["snapall", None, 1, HI], "snap")
-        weights = {"pairs": 6, "triples": 2, "inset": 2, "roundtrip": 3, "snap": 2, "gc": 0.3, "noop": 1.5}
+        weights = {"pairs": 6, "triples": 2, "inset": 2, "roundtrip": 3, "snap": 2, "gc": 0.3, "noop": 1.5, "formop": 1.2}
         ctr["noop"] = 0
         if nn > 1 and arm != "local":
             weights.update({"send": 4, "recv": 5})
@@ -120,7 +120,9 @@ class C13(Scenario):
                 add(n, maybe_fault(["inset", None, a, rng.sample(same, min(len(same), rng.randint(1, 6)))]))
             elif k == "roundtrip" and pl:
                 a = rng.choice(pl)
-                how = rng.choice(["pickle", "evalrepr"]) if pkind[n].get(str(a)) == "expr" else "pickle"
+                # expressions: both round trips are promised; forms: pickle, and eval(repr(.))
+                # as a source of twins that carry no history (no cached hash / signature)
+                how = rng.choice(["pickle", "evalrepr"])
                 out = RT_BASE + ctr["rt"]
                 ctr["rt"] += 1
                 add(n, maybe_fault(["roundtrip", out, a, how]))
@@ -157,6 +159,43 @@ class C13(Scenario):
                     )
                     add(n, op)
                     # its result is not tracked: only what it does to the pool matters
+            elif k == "formop" and pl:
+                # form arithmetic on pool members that already have a history (hashed,
+                # compared, signed); the results join the pool and meet history-free twins
+                fs = [x for x in pl if pkind[n].get(str(x)) == "form"]
+                if fs:
+                    a = rng.choice(fs)
+                    mates = [q for q in equalish[n] if a in q and all(pkind[n].get(str(y)) == "form" for y in q)]
+                    out = NOOP_BASE + ctr["noop"]
+                    ctr["noop"] += 1
+                    w = rng.choice(["neg", "scale", "rscale", "addself", "sub"])
+                    def fop(x, o):
+                        X = ["$", x]
+                        if w == "neg":
+                            return ["call", o, "operator.neg", [X]]
+                        if w == "scale":
+                            return ["call", o, "operator.mul", [2, X]]
+                        if w == "rscale":
+                            return ["call", o, "operator.mul", [-0.5, X]]
+                        if w == "addself":
+                            return ["call", o, "operator.add", [X, X]]
+                        return ["call", o, "operator.sub", [X, X]]
+                    add(n, fop(a, out))
+                    pools[n].append(out)
+                    pkind[n][str(out)] = "form"
+                    if mates and rng.random() < 0.7:
+                        q = rng.choice(mates)
+                        b = q[0] if q[1] == a else q[1]
+                        out2 = NOOP_BASE + ctr["noop"]
+                        ctr["noop"] += 1
+                        add(n, fop(b, out2))
+                        pools[n].append(out2)
+                        pkind[n][str(out2)] = "form"
+                        equalish[n].append((out, out2))
+                        add(n, ["pairs", None, [[out, out2], [out2, out]], True])
+                    o3 = RT_BASE + ctr["rt"]
+                    ctr["rt"] += 1
+                    add(n, ["roundtrip", o3, out, rng.choice(["pickle", "evalrepr"])])
             elif k == "snap":
                 add(n, ["snapall", None, 1, HI], "snap")
             elif k == "gc":
